@@ -64,6 +64,7 @@ def cases(draw, tier):
         "max_order": draw(st.sampled_from([None, None, 1, 2, 3])),
         "style": draw(st.sampled_from(["default", "scalar", "list", "dict", "stat"])),
         "fn": draw(st.sampled_from(["draw", "draw", "draw_nodes", "draw_hyperedges", "draw_simplices"])),
+        "posmode": draw(st.sampled_from(["same", "same", "reversed", "extra"])),
     }
 
 
@@ -125,6 +126,12 @@ def run_case(case, ctx):
             np_, ep = xgi.bipartite_spring_layout(H, seed=o["seed"], k=o["k"])
             check_layout(ctx, "bipartite-nodes", np_, nodes)
             check_layout(ctx, "bipartite-edges", ep, list(mem))
+        # a position dict is keyed by node: neither its key order nor extra keys may matter
+        pmode = case.get("posmode", "same")
+        if pmode == "reversed":
+            pos = {k: pos[k] for k in reversed(list(pos))}
+        elif pmode == "extra":
+            pos = dict([("__not_a_node__", np.array([9.0, 9.0]))] + list(pos.items()))
         bc = xgi.edge_positions_from_barycenters(H, pos)
         ctx.check(set(bc) == set(mem) and all(np.allclose(np.asarray(bc[e], float), np.mean([pos[v] for v in mem[e]], axis=0)) for e in mem if mem[e]),
                   ("layout", "edge_positions_from_barycenters", "mean-of-members"), lambda: repr(bc))
